@@ -51,23 +51,29 @@ Definition c01_mismatches (cases : list hcase) : list Z :=
 (* the property, evaluated on what the implementation wrote: feed its tokens to the reference
    terminal and compare with the application's screen after every frame, as long as the
    hypotheses on the content hold *)
-Fixpoint frames_hold (tw : list Z -> Z) (cp : caps) (s : vstate) (t : term) (fs : list fcase) : bool :=
+Fixpoint frames_hold (strict : bool) (tw : list Z -> Z) (cp : caps) (s : vstate) (t : term) (fs : list fcase) : bool :=
   match fs with
   | [] => true
   | (ops, e, obs) :: rest =>
       let s1 := fold_left apply_op ops s in
       match e with
-      | FResize r c => frames_hold tw cp (do_resize s1 r c) (resize_term t r c) rest
+      | FResize r c => frames_hold strict tw cp (do_resize s1 r c) (resize_term t r c) rest
       | _ =>
-          if grid_ok tw tw cp (v_next s1) then
+          if (if strict then grid_ok_nofit tw tw cp (v_next s1) else grid_ok tw tw cp (v_next s1)) then
             let '(s', _) := do_frame s ops e in
             let t' := compact (interp tw t obs) in
-            frame_ok cp t t' s1 && frames_hold tw cp s' t' rest
+            frame_ok cp t t' s1 && frames_hold strict tw cp s' t' rest
           else true
       end
   end.
 
-Definition c01_holds (h : hcase) : bool :=
-  frames_hold (lookup_w (h_widths h)) (h_caps h) (vinit (h_caps h) (h_rows h) (h_cols h))
+Definition c01_holds_gen (strict : bool) (h : hcase) : bool :=
+  frames_hold strict (lookup_w (h_widths h)) (h_caps h) (vinit (h_caps h) (h_rows h) (h_cols h))
               (term_unknown (h_rows h) (h_cols h)) (h_frames h).
+(* the property at full strength (a wide cell may sit anywhere) *)
+Definition c01_holds (h : hcase) : bool := c01_holds_gen true h.
 Definition c01_violations (cases : list hcase) : list Z := bad_indices (fun h => negb (c01_holds h)) cases.
+(* guard of the recorded finding wide-overhang: the history fails only because a wide cell
+   overhangs the right edge of the screen *)
+Definition c01_known (cases : list hcase) : list Z :=
+  bad_indices (fun h => negb (c01_holds_gen true h) && c01_holds_gen false h) cases.
